@@ -58,6 +58,7 @@ type akAckRec struct {
 	poke  chan struct{}
 	hasTo bool
 	bin   bool
+	hold  chan struct{} // when set: the FIRST invocation blocks inside the callback until it is closed
 }
 
 func akNewAckRec(hasTimeout, bin bool) *akAckRec {
@@ -75,10 +76,19 @@ func (r *akAckRec) add(err error, n int, binLen int) {
 		}
 	}
 	r.invs = append(r.invs, iv)
+	first := len(r.invs) == 1
+	hold := r.hold
 	r.mu.Unlock()
 	select {
 	case r.poke <- struct{}{}:
 	default:
+	}
+	if first && hold != nil {
+		// a slow user callback: it is still running while the timer fires / further ACK packets arrive
+		select {
+		case <-hold:
+		case <-time.After(20 * time.Second):
+		}
 	}
 }
 
@@ -520,7 +530,8 @@ type akRaceSpec struct {
 	Calls   int    `json:"calls"` // how many times the peer calls the ack function (second call: code+1)
 	Many    int    `json:"many"`  // other acks outstanding on the same socket at the same time
 	Tr      string `json:"tr"`    // websocket | polling
-	Order   string `json:"order"` // forced mode: reply-first | timer-first | together | "" (free running)
+	Order   string `json:"order"` // forced mode: reply-first | timer-first | together | reply-held | timer-held | "" (free running)
+	Hold    bool   `json:"hold"`  // the callback blocks until the other party (timer / late reply) had its turn
 }
 
 type akRaceRow struct {
@@ -733,6 +744,9 @@ func akRunRace(spec akRaceSpec, patience time.Duration) akRaceRow {
 		emitter = ss
 	}
 	rec := akNewAckRec(spec.Timeout > 0, spec.RBin)
+	if spec.Hold || spec.Order == "reply-held" || spec.Order == "timer-held" {
+		rec.hold = make(chan struct{})
+	}
 	others := make([]*akAckRec, spec.Many)
 	if spec.Order != "" {
 		akInstallGate()
@@ -820,6 +834,37 @@ func akRunRace(spec akRaceSpec, patience time.Duration) akRaceRow {
 		akTheGate.mu.Unlock()
 		rec.waitCount(1, patience+time.Second)
 		close(replyGate)
+	case "reply-held":
+		// the timer has expired and is parked; the reply arrives, its callback starts and blocks;
+		// only then the timer goroutine goes on, while the callback is still executing
+		select {
+		case <-akTheGate.parked:
+		case <-time.After(patience + 2*time.Second):
+			row.Err = "timer never reached the yield point"
+		}
+		close(replyGate)
+		rec.waitCount(1, patience+time.Second)
+		akTheGate.mu.Lock()
+		akTheGate.active = false
+		close(akTheGate.release)
+		akTheGate.mu.Unlock()
+		rec.waitCount(2, 80*time.Millisecond)
+		close(rec.hold)
+	case "timer-held":
+		// the timeout callback starts and blocks; the reply arrives while it is still executing
+		select {
+		case <-akTheGate.parked:
+		case <-time.After(patience + 2*time.Second):
+			row.Err = "timer never reached the yield point"
+		}
+		akTheGate.mu.Lock()
+		akTheGate.active = false
+		close(akTheGate.release)
+		akTheGate.mu.Unlock()
+		rec.waitCount(1, patience+time.Second)
+		close(replyGate)
+		rec.waitCount(2, 80*time.Millisecond)
+		close(rec.hold)
 	case "together":
 		select {
 		case <-akTheGate.parked:
@@ -834,6 +879,23 @@ func akRunRace(spec akRaceSpec, patience time.Duration) akRaceRow {
 		close(rel)
 		rec.waitCount(1, patience+time.Second)
 	default:
+		if spec.Hold {
+			// the first invocation (reply or timeout) starts and blocks; it is released only after the
+			// other party has certainly had its turn: max(timeout, delay) + 100 ms after the emit
+			w := patience + time.Second + time.Duration(spec.Timeout)*time.Millisecond
+			if spec.Delay > 0 {
+				w += time.Duration(spec.Delay) * time.Millisecond
+			}
+			rec.waitCount(1, w)
+			m := spec.Timeout
+			if spec.Delay > m {
+				m = spec.Delay
+			}
+			if rest := time.Until(emitAt.Add(time.Duration(m+100) * time.Millisecond)); rest > 0 {
+				time.Sleep(rest)
+			}
+			close(rec.hold)
+		}
 		if expectInv {
 			wait := patience + time.Second
 			if spec.Timeout > 0 {
@@ -907,6 +969,7 @@ type akRawSpec struct {
 	Bogus   int    `json:"bogus"`   // ACK packets for ids nobody waits for, sent first
 	Natt    int    `json:"natt"`
 	RBin    bool   `json:"rbin"`
+	Hold    bool   `json:"hold"` // the callback blocks until the timeout has passed and the late ACK packets were sent
 }
 
 type akRawRow struct {
@@ -925,6 +988,9 @@ func akRunRaw(spec akRawSpec, patience time.Duration) akRawRow {
 	const seq = 5
 	row := akRawRow{Mode: "raw", Spec: spec, Code: 1000 + seq, Invs: []akAckInv{}, Pending: []int{}}
 	rec := akNewAckRec(spec.Timeout > 0, spec.RBin)
+	if spec.Hold {
+		rec.hold = make(chan struct{})
+	}
 	fin := akNewAckRec(false, false)
 	early := spec.Dups - spec.Late
 	lateGo := make(chan struct{})
@@ -1073,6 +1139,10 @@ func akRunRaw(spec akRawSpec, patience time.Duration) akRawRow {
 	}
 	close(lateGo)
 	time.Sleep(40 * time.Millisecond)
+	if spec.Hold {
+		close(rec.hold)
+		time.Sleep(10 * time.Millisecond)
+	}
 	fin.t0 = time.Now()
 	emitter.Emit("e0", 1, fin.callback())
 	row.Usable = fin.waitCount(1, patience+time.Second)
@@ -1404,6 +1474,17 @@ func akRaceSpecs(r *vk.Rand, thorough bool) []akRaceSpec {
 			out = append(out, akRaceSpec{Dir: dir, Timeout: 0, Delay: 60, Natt: natt, Conn: "cut", After: 15, Calls: 1, Tr: "websocket"})
 		}
 	}
+	// slow callbacks: the reply callback is still running when the timer fires; the timeout callback is
+	// still running when the reply arrives; a duplicate call of the ack function meanwhile
+	for _, dir := range []string{"c2s", "s2c"} {
+		for _, natt := range []int{0, 2} {
+			out = append(out, akRaceSpec{Dir: dir, Timeout: T, Delay: 0, Natt: natt, Conn: "connected", Calls: 1 + natt/2, Tr: "websocket", Hold: true})
+			out = append(out, akRaceSpec{Dir: dir, Timeout: T, Delay: 2*T + 60, Natt: natt, Conn: "connected", Calls: 1, Tr: "websocket", Hold: true})
+			out = append(out, akRaceSpec{Dir: dir, Timeout: T, Delay: T / 4, Natt: natt, RBin: true, Conn: "connected", Calls: 1, Many: 8, Tr: "websocket", Hold: true})
+		}
+		out = append(out, akRaceSpec{Dir: dir, Timeout: T, Delay: -1, Natt: 1, Conn: "connected", Calls: 1, Tr: "websocket", Hold: true})
+		out = append(out, akRaceSpec{Dir: dir, Timeout: 0, Delay: 0, Natt: 1, Conn: "connected", Calls: 2, Tr: "websocket", Hold: true})
+	}
 	// emitter not yet connected (client only): connects well before / around / well after the timeout
 	for natt := 0; natt <= 3; natt++ {
 		for _, after := range []int{5, T, 2*T + 40} {
@@ -1426,7 +1507,7 @@ func akRaceSpecs(r *vk.Rand, thorough bool) []akRaceSpec {
 func akForcedSpecs(thorough bool) []akRaceSpec {
 	var out []akRaceSpec
 	for _, dir := range []string{"c2s", "s2c"} {
-		for _, order := range []string{"reply-first", "timer-first", "together"} {
+		for _, order := range []string{"reply-first", "timer-first", "together", "reply-held", "timer-held"} {
 			for natt := 0; natt <= 3; natt++ {
 				reps := 1
 				if order == "together" {
@@ -1447,7 +1528,7 @@ func akForcedSpecs(thorough bool) []akRaceSpec {
 func akRawSpecs(thorough bool) []akRawSpec {
 	var out []akRawSpec
 	for _, side := range []string{"client", "server"} {
-		for _, to := range []int{0, 60} {
+		for _, to := range []int{0, 120} {
 			for dups := 0; dups <= 3; dups++ {
 				for late := 0; late <= dups; late++ {
 					if to == 0 && late > 0 {
@@ -1457,6 +1538,9 @@ func akRawSpecs(thorough bool) []akRawSpec {
 						continue
 					}
 					out = append(out, akRawSpec{Side: side, Timeout: to, Dups: dups, Late: late, Bogus: dups % 2 * 2, Natt: (dups + late) % 4, RBin: dups == 2})
+					if dups >= 1 && (to > 0 || dups >= 2) {
+						out = append(out, akRawSpec{Side: side, Timeout: to, Dups: dups, Late: late, Natt: dups % 4, Hold: true})
+					}
 				}
 			}
 		}
